@@ -99,6 +99,19 @@ void *memcpy(void *dst, const void *src, size_t n)
 }
 #endif
 
+#ifndef VF_REPLAY
+/* STUB: realloc() must not be reached: the entry array is pre-sized (BOUND) and the output area is static */
+void *realloc(void *p, size_t n)
+{
+	(void) n;
+	PROP(0, "harness: no reallocation is needed within the bound");
+	return p;
+}
+#endif
+
+static int vf_any;		/* ref_count counts every live entry, not only those equal to the probe */
+static unsigned int vf_sum;	/* ref_count: sum over counted entries of the minimal record length (8 + name, rounded up to 4) */
+static __u32 vf_dotdot;	/* ref_count: inode of the last ".." entry */
 static int vf_tiles;	/* set by ref_count: the chain of the block just walked ends exactly at BLK with valid entries */
 
 /*
@@ -123,14 +136,18 @@ static int ref_count(const unsigned char *b, int skip_dots)
 			continue;
 		if (skip_dots && nl == 1 && b[o + 8] == '.')
 			continue;
-		if (skip_dots && nl == 2 && b[o + 8] == '.' && b[o + 9] == '.')
+		if (skip_dots && nl == 2 && b[o + 8] == '.' && b[o + 9] == '.') {
+			vf_dotdot = ino;
 			continue;
+		}
 		same = (ino == IN.p_ino && nl == IN.p_len && b[o + 7] == IN.p_type);
 		for (k = 0; k < NAMEMAX; k++)
 			if (k < nl && o + 8 + k < BLK && b[o + 8 + k] != IN.p_name[k])
 				same = 0;
-		if (same)
+		if (same || vf_any) {
 			n++;
+			vf_sum += (8 + nl + 3) & ~3U;
+		}
 	}
 	vf_tiles = ok && next == BLK;
 	return n;
@@ -184,16 +201,38 @@ int main(void)
 #endif
 	PROP(vf_tiles, "a block accepted by fill_dir_block is a tiling chain of valid entries");
 
+#ifdef FILLONLY
+	vf_any = 1; vf_sum = 0;
+#ifdef COMPRESS
+	PROP((blk_t) ref_count(vf_dirbuf, 0) == fd.num_array, "fill_dir_block indexes exactly the live entries");
+#else
+	PROP((blk_t) ref_count(vf_dirbuf, 1) == fd.num_array, "fill_dir_block indexes exactly the live entries other than . and ..");
+	PROP(fd.parent == vf_dotdot, "fill_dir_block records the inode of '..' as parent");
+#endif
+	PROP(fd.dir_size == vf_sum, "dir_size is the sum of the minimal record lengths of the indexed entries");
+	for (i = 0; i < MAXENT; i++)
+		if ((blk_t) i < fd.num_array) {
+			PROP((unsigned char *) vf_harray[i].dir >= vf_dirbuf && (unsigned char *) vf_harray[i].dir < vf_dirbuf + BLK &&
+			     vf_harray[i].ino == vf_harray[i].dir->inode && vf_harray[i].ino != 0,
+			     "every index slot points at a live entry of the block and carries its inode");
+			if (i > 0)
+				PROP((char *) vf_harray[i].dir > (char *) vf_harray[i - 1].dir, "index slots point at distinct entries in block order");
+		}
+	VF_END();
+	return 0;
+#endif
 	/* the caller sorts the array between the two steps: any order must do; one symbolic transposition */
-	for (i = 0; i < MAXENT; i++) {
+#ifdef SWAP
+	for (i = 0; i < BLK / 12; i++) {
 		int j;
-		for (j = 0; j < MAXENT; j++)
+		for (j = i + 1; j < BLK / 12; j++)
 			if (i == IN.swap_a && j == IN.swap_b && (blk_t) i < fd.num_array && (blk_t) j < fd.num_array) {
 				struct hash_entry t = vf_harray[i];
 				vf_harray[i] = vf_harray[j];
 				vf_harray[j] = t;
 			}
 	}
+#endif
 
 	outdir = odz;
 	err = copy_dir_entries(&vf_ctx, &fd, &outdir);
